@@ -328,7 +328,9 @@ type c11fault struct {
 	Op     string `json:"operation"`
 	Sys    string `json:"syscall"`
 	Occ    int    `json:"occurrence_on_main_thread"`
-	Kind   string `json:"fault"` // EIO | ENOSPC | EINTR | short100
+	Kind   string `json:"fault"` // EIO | ENOSPC | EINTR | EAGAIN | short<K>
+	Dur    string `json:"duration"` // once | twice | thrice | persistent (occurrences K, K..K+1, K..K+2, K+)
+	Fails  int    `json:"failures_inside_the_call"`
 	Landed bool   `json:"landed"`
 	Result string `json:"child_reported"`
 	Line   string `json:"injected_line,omitempty"`
@@ -488,12 +490,18 @@ func c11Faults(r *core.Run) (landed int64, kindsPlanned, kindsLanded map[string]
 					continue
 				}
 				occ := rec.T.occurrence(e.Idx)
-				for _, k := range []string{"EIO", "ENOSPC", "EINTR"} {
-					plan = append(plan, c11fault{Case: ci, CaseN: c.Name, Call: call.I, Op: op, Sys: e.Name, Occ: occ, Kind: k})
+				errnos := []string{"EIO", "ENOSPC", "EINTR"}
+				if e.Name == "pread64" || e.Name == "pwrite64" {
+					errnos = append(errnos, "EAGAIN")
+				}
+				for _, k := range errnos {
+					for _, dur := range faultDurations {
+						plan = append(plan, c11fault{Case: ci, CaseN: c.Name, Call: call.I, Op: op, Sys: e.Name, Occ: occ, Kind: k, Dur: dur})
+					}
 				}
 				if e.Name == "pread64" || e.Name == "pwrite64" {
 					for _, k := range c11ShortCounts {
-						plan = append(plan, c11fault{Case: ci, CaseN: c.Name, Call: call.I, Op: op, Sys: e.Name, Occ: occ, Kind: fmt.Sprintf("short%d", k)})
+						plan = append(plan, c11fault{Case: ci, CaseN: c.Name, Call: call.I, Op: op, Sys: e.Name, Occ: occ, Kind: fmt.Sprintf("short%d", k), Dur: "once"})
 					}
 				}
 			}
@@ -525,7 +533,7 @@ func c11Faults(r *core.Run) (landed int64, kindsPlanned, kindsLanded map[string]
 		mu.Lock()
 		kindsPlanned[kindsPlannedKey] = true
 		mu.Unlock()
-		inj := fmt.Sprintf("%s:error=%s:when=%d", f.Sys, f.Kind, f.Occ)
+		inj := fmt.Sprintf("%s:error=%s:when=%s", f.Sys, f.Kind, whenSpec(f.Occ, f.Dur))
 		if k, ok := shortCount(f.Kind); ok {
 			inj = fmt.Sprintf("%s:retval=%d:when=%d", f.Sys, k, f.Occ)
 		}
@@ -539,12 +547,13 @@ func c11Faults(r *core.Run) (landed int64, kindsPlanned, kindsLanded map[string]
 				os.RemoveAll(d)
 				continue
 			}
-			at, ok := sr.T.faultLanded(f.Call, f.Sys)
+			at, inCall, retried, ok := sr.T.faultsLanded(f.Call, f.Sys)
 			if !ok {
 				os.RemoveAll(d)
 				continue
 			}
 			f.Landed = true
+			f.Fails = len(inCall)
 			f.Line = at.Raw
 			if len(f.Line) > 140 {
 				f.Line = f.Line[:60] + " … " + f.Line[len(f.Line)-60:]
@@ -559,12 +568,6 @@ func c11Faults(r *core.Run) (landed int64, kindsPlanned, kindsLanded map[string]
 			if !call.Ended {
 				f.Result = "(call did not return: child ended)"
 			}
-			retried := false
-			for _, e := range call.Sys {
-				if e.Idx > at.Idx && e.Name == at.Name && e.ok() {
-					retried = true
-				}
-			}
 			judged[i] = &c11judged{call, retried}
 			os.RemoveAll(d)
 			break
@@ -578,7 +581,8 @@ func c11Faults(r *core.Run) (landed int64, kindsPlanned, kindsLanded map[string]
 			if _, ok := shortCount(f.Kind); ok {
 				r.Count("short_transfers_landed_"+f.Sys+"_"+f.Kind, 1)
 			}
-			r.Distinct(fmt.Sprintf("fault/%s/call%d/%s/%s#%d/%s", c.Script, f.Call, f.Op, f.Sys, f.Occ, f.Kind))
+			r.Distinct(fmt.Sprintf("fault/%s/call%d/%s/%s#%d/%s/%s", c.Script, f.Call, f.Op, f.Sys, f.Occ, f.Kind, f.Dur))
+			r.Count("faults_landed_duration_"+f.Dur, 1)
 			mu.Lock()
 			kindsLanded[f.Sys] = true
 			mu.Unlock()
@@ -648,12 +652,50 @@ func c11Judge(r *core.Run, c c11case, f c11fault, call apiCall, retried bool) {
 	}
 	detail := map[string]interface{}{"fault": f, "script": c.Script, "num_blocks": c.N, "prior_image": c.Prior, "syscalls_of_the_call": excerpt(call.Sys, 8)}
 	k, short := shortCount(f.Kind)
+	if retried && !short {
+		// The call reports success after one or more occurrences of the
+		// syscall failed and a later one succeeded. What the statement says
+		// about that depends on the syscall:
+		r.Count("faults_retried_successfully", 1)
+		r.Count(fmt.Sprintf("faults_retried_successfully_%s_%s", f.Sys, f.Kind), 1)
+		transient := f.Kind == "EINTR" || f.Kind == "EAGAIN"
+		readWrong := strings.Contains(call.Result, "match=no")
+		switch {
+		case flushCalls[f.Sys] && transient:
+			// an interrupted fsync leaves the pages dirty on Linux and the
+			// retry flushes them; not so on every file system: not decided
+			r.Inconclusive("flush-" + f.Kind + "-then-successful-retry-not-judged")
+		case flushCalls[f.Sys]:
+			// a failed fsync may already have marked the dirty pages clean (or
+			// dropped them): the later success says nothing about the data of
+			// the failed one — the underlying flush failed and Barrier says ok
+			r.Violate(fmt.Sprintf("fault-%s-%s-%s-retried-then-reported-success", f.Op, f.Sys, f.Kind),
+				fmt.Sprintf("%s reported success although %d %s call(s) issued on its behalf failed with %s (first: occurrence %d); it re-issued %s until one succeeded, which proves nothing about the pages of the failed flush", f.Op, f.Fails, f.Sys, f.Kind, f.Occ, f.Sys), detail)
+		case f.Sys == "pread64" && readWrong:
+			r.Violate(fmt.Sprintf("fault-%s-pread64-%s-retried-wrong-data", f.Op, f.Kind),
+				fmt.Sprintf("%s after a pread64 failing with %s re-read and returned data differing from the last value written: %s", f.Op, f.Kind, call.Result), detail)
+		case f.Sys == "pread64" && transient:
+			r.Count("restartable_errors_retried_and_correct", 1) // read restarted after EINTR/EAGAIN without loss
+		case f.Sys == "pread64":
+			// a read error followed by a re-read that returned the last value
+			// written: nothing lost or stale was observed, but a read did fail
+			r.Inconclusive("pread-" + f.Kind + "-then-successful-reread-with-correct-data-not-judged")
+		case f.Sys == "pwrite64" && transient:
+			r.Count("restartable_errors_retried_and_correct", 1)
+		case f.Sys == "pwrite64":
+			r.Violate(fmt.Sprintf("fault-%s-%s-%s-retried-then-reported-success", f.Op, f.Sys, f.Kind),
+				fmt.Sprintf("%s reported success although %d pwrite64 call(s) issued on its behalf failed with %s (first: occurrence %d) before one succeeded", f.Op, f.Fails, f.Kind, f.Occ), detail)
+		default:
+			// ftruncate (resize at open) re-issued successfully: the resize did
+			// happen; the reopen checks decide the content
+			r.Count("faults_retried_not_judged_"+f.Sys, 1)
+		}
+		return
+	}
 	if retried {
-		// the implementation re-issued the syscall and that succeeded: the
-		// underlying operation did not fail in the end. A faked K-byte
-		// transfer moves no data, so the bytes below K are whatever the buffer
-		// (or the file) held before: only bytes from offset K on can be judged
-		// after a retry loop.
+		// A faked K-byte transfer moves no data, so the bytes below K are
+		// whatever the buffer (or the file) held before: only bytes from offset
+		// K on can be judged after a retry loop.
 		r.Count("faults_retried_successfully", 1)
 		if short && f.Sys == "pread64" {
 			if lb, ok := resultField(call.Result, "lastbad"); ok && strings.Contains(call.Result, "match=") && !strings.Contains(call.Result, "match=unknown") {
@@ -687,7 +729,9 @@ func runC11(r *core.Run) (bool, string) {
 		"seeded random write/read/barrier histories with Close + NewFileDisk(path,n') at random points, n' in {n,n+1,n-1,0,2n}, same verification after every reopen (sampled, not exhaustive). " +
 		"(b) faults under strace: the child runs a script (fixed script open,W,W,Barrier,Read,ReadTo,Barrier,Close over prior images absent/larger/exact/smaller, plus seeded random scripts), every API call between BEGIN i/END i marker writes; " +
 		"a recording run yields the per-thread occurrence index of EVERY pwrite64/pread64/fsync/fdatasync/ftruncate inside the markers and each is injected with EIO, ENOSPC, EINTR (exhaustive for the scripts run) and, for pread64/pwrite64, with a faked transfer of 0, 1, 100 and 4095 bytes (the syscall is not executed: the kernel moves no data); " +
-		"an injected run counts only if its own log shows exactly one (INJECTED) line, on the main thread, of the planned syscall, inside the planned markers (else retried once, then inconclusive); " +
+		"fault duration: each errno fault fails exactly the K-th occurrence of the syscall, occurrences K..K+1, K..K+2, or every occurrence from K on (EAGAIN additionally on pread64/pwrite64); " +
+		"an injected run counts only if its own log shows (INJECTED) lines only on the main thread and only of the planned syscall, the first of them inside the planned markers (else retried once, then inconclusive); " +
+		"when the call re-issued the failed syscall and that succeeded: fsync/fdatasync failed with EIO/ENOSPC -> violation (a failed flush may have dropped the dirty state, the later success proves nothing), with EINTR -> inconclusive; pwrite64 failed with EIO/ENOSPC -> violation, with EINTR/EAGAIN -> allowed (restartable without loss); pread64 re-read returning wrong data -> violation, correct data after EINTR/EAGAIN -> allowed, after EIO/ENOSPC -> inconclusive; ftruncate -> not judged here. " +
 		"violation = the enclosing call reports `ok` and did not re-issue the syscall successfully; after a faked K-byte pread64 followed by a successful re-read, a returned byte at offset >= K differing from the last value written (never-written blocks: the retained prior image, then zeros). " +
 		"A Barrier that returns without any flush syscall in the recording run is a violation (barrier-no-fsync): the statement requires Barrier never to report success when the flush failed, and a Barrier that does not flush cannot surface a failed flush — there is nothing to inject into. " +
 		"(c) image length changed behind an open disk (child processes, no strace; image_length_* keys): after writing every block the harness truncates the image to 0 / to 1 byte / inside a block / one byte short / on a block boundary / k blocks short, opens a second handle with fewer blocks (kept open, or closed at once) or with more blocks, grows the image by whole or partial blocks, or shrinks and re-extends it; " +
@@ -702,7 +746,7 @@ func runC11(r *core.Run) (bool, string) {
 	landed, planned, kl := c11Faults(r)
 	notLanded := r.GetCount("faults_not_landed")
 	r.Set("exhaustive", notLanded == 0 && landed > 0)
-	r.Set("exhaustive_parts", []string{"prior image length x numBlocks grid (30 atoms, coinciding lengths merged)", "every occurrence of pwrite64/pread64/fsync/fdatasync/ftruncate in each script run x {EIO,ENOSPC,EINTR} and x short transfer for pread64/pwrite64"})
+	r.Set("exhaustive_parts", []string{"prior image length x numBlocks grid (30 atoms, coinciding lengths merged)", "every occurrence of pwrite64/pread64/fsync/fdatasync/ftruncate in each script run x {EIO,ENOSPC,EINTR, EAGAIN for pread64/pwrite64} x duration {K, K..K+1, K..K+2, K+} and x short transfer {0,1,100,4095} for pread64/pwrite64"})
 	for k := range planned {
 		if !kl[k] {
 			return false, "no fault landed for syscall " + k
